@@ -134,6 +134,11 @@ class ProgressObserver(l1.Observer):
             raise l1.Violation("restart:load-raised", f"{type(e).__name__}: {e}")
         if s2.live_paths() != st.live_paths():
             raise l1.Violation("restart:active-order", f"{s2.live_paths()} != {st.live_paths()}")
+        # a run continued from this file must not hand out a path number that was used before
+        tn = cfg["current"]["traj_num"]
+        if tn in self.numbers_seen or tn <= max(self.numbers_seen):
+            raise l1.Violation("restart:path-number-would-be-reused",
+                               f"restart file carries traj_num={tn} but path numbers up to {max(self.numbers_seen)} are in use")
 
 
 _C03_SPECS = c03.specs
